@@ -173,12 +173,12 @@ type RefreshReq struct {
 	alias  func([]string)
 }
 
-func (r *RefreshReq) GetAMR() []string                 { return r.r.AMR }
-func (r *RefreshReq) GetAudience() []string            { return r.r.Audience }
-func (r *RefreshReq) GetAuthTime() time.Time           { return r.r.AuthTime }
-func (r *RefreshReq) GetClientID() string              { return r.r.ClientID }
-func (r *RefreshReq) GetScopes() []string              { return r.scopes }
-func (r *RefreshReq) GetSubject() string               { return r.r.Subject }
+func (r *RefreshReq) GetAMR() []string       { return r.r.AMR }
+func (r *RefreshReq) GetAudience() []string  { return r.r.Audience }
+func (r *RefreshReq) GetAuthTime() time.Time { return r.r.AuthTime }
+func (r *RefreshReq) GetClientID() string    { return r.r.ClientID }
+func (r *RefreshReq) GetScopes() []string    { return r.scopes }
+func (r *RefreshReq) GetSubject() string     { return r.r.Subject }
 func (r *RefreshReq) SetCurrentScopes(scopes []string) {
 	r.scopes = scopes
 	if r.alias != nil {
@@ -187,8 +187,8 @@ func (r *RefreshReq) SetCurrentScopes(scopes []string) {
 		r.alias(scopes)
 	}
 }
-func (r *RefreshReq) OriginalScopes() []string         { return r.r.Scopes }
-func (r *RefreshReq) RefreshTokenID() string           { return r.r.ID }
+func (r *RefreshReq) OriginalScopes() []string { return r.r.Scopes }
+func (r *RefreshReq) RefreshTokenID() string   { return r.r.ID }
 
 // CCReq is the TokenRequest of the client_credentials grant.
 type CCReq struct {
@@ -260,6 +260,7 @@ type Store struct {
 	TEPolicy        TEPolicy
 	TEImpersonateAs string
 	TEActorClaim    bool // token exchange: private claims / userinfo of the issued JWT carry "act":{"sub":<actor>} (zero: no such claim)
+	TEUISubByScope  bool // SetUserinfoFromTokenExchangeRequest sets UserInfo.Subject only when "openid" is among the decided scopes (as SetUserinfoFromScopes does); zero: always set
 	TENoRefreshVet  bool // ValidateTokenExchangeRequest does not re-check refresh-token subjects/actors (it trusts the framework's TokenRequestByRefreshToken look-up); zero: re-checked
 	TEJWTTypeOK     bool // ValidateTokenExchangeRequest lets urn:...:jwt typed tokens pass (they were verified by a TokenExchangeTokensVerifierStorage wrapper); zero: refused
 	JWTProfileType  op.AccessTokenType
@@ -1290,7 +1291,9 @@ func (s *Store) setUserinfoFromTokenExchangeRequest(ctx context.Context, ui *oid
 	if ferr != nil {
 		return ferr
 	}
-	ui.Subject = req.GetSubject()
+	if !s.TEUISubByScope {
+		ui.Subject = req.GetSubject()
+	}
 	s.fillUser(ui, req.GetSubject(), req.GetScopes())
 	if s.TEActorClaim && req.GetExchangeActor() != "" {
 		ui.AppendClaims("act", map[string]any{"sub": req.GetExchangeActor()})
